@@ -190,10 +190,15 @@ func srvCliStr(isClient bool) string {
 
 // Conn represents a DTLS connection.
 type Conn struct {
-	lock           sync.RWMutex                       // Internal lock (must not be public)
-	nextConn       netctx.PacketConn                  // Embedded Conn, typically a udpconn we read/write from
+	lock                 sync.RWMutex      // Internal lock (must not be public)
+	nextConn             netctx.PacketConn // Embedded Conn, typically a udpconn we read/write from
 	clientSessionKeyOnce sync.Once
 	clientSessionKey     []byte
+
+	// highest protected DTLS 1.2 record number accepted so far, plus one
+	// (0: none yet); exported with the connection state so that a resumed
+	// connection does not accept again what this one already delivered.
+	acceptedRemoteSequence atomic.Uint64
 
 	fragmentBuffer *dtlsfragmentbuffer.FragmentBuffer // out-of-order and missing fragment handling
 	handshakeCache *dtlsflight.Cache                  // caching of handshake messages for verifyData generation
@@ -783,6 +788,7 @@ func (c *Conn) ConnectionState() (State, bool) {
 	if err != nil {
 		return State{}, false
 	}
+	state.acceptedRemoteSequence = c.acceptedRemoteSequence.Load()
 
 	return *state, true
 }
@@ -2031,8 +2037,48 @@ func (c *Conn) legacyReplayMarker(header *recordlayer.Header) (func() bool, bool
 
 		return nil, false
 	}
+	if header.Epoch == 0 {
+		return markPacketAsValid, true
+	}
+	sequenceNumber := header.SequenceNumber
 
-	return markPacketAsValid, true
+	return func() bool {
+		latest := markPacketAsValid()
+		for {
+			seen := c.acceptedRemoteSequence.Load()
+			if sequenceNumber < seen || c.acceptedRemoteSequence.CompareAndSwap(seen, sequenceNumber+1) {
+				break
+			}
+		}
+
+		return latest
+	}, true
+}
+
+// primeReplayWindow makes a connection resumed from exported state refuse every
+// record of the read epoch up to the highest one the exporting connection had
+// accepted: the replay window itself is not part of the exported state.
+func (c *Conn) primeReplayWindow(common *dtlsstate.Common, epoch uint16, accepted uint64) {
+	if common == nil || accepted == 0 || epoch == 0 {
+		return
+	}
+	c.acceptedRemoteSequence.Store(accepted)
+	window := uint64(replayDetectorWindow(c.replayProtectionWindow))
+	for len(common.ReplayDetector) <= int(epoch) {
+		common.ReplayDetector = append(common.ReplayDetector,
+			replaydetector.New(uint(window), recordlayer.MaxSequenceNumber),
+		)
+	}
+	highest := accepted - 1
+	first := uint64(0)
+	if highest >= window {
+		first = highest - window + 1
+	}
+	for seq := first; seq <= highest; seq++ {
+		if accept, ok := common.ReplayDetector[int(epoch)].Check(seq); ok {
+			accept()
+		}
+	}
 }
 
 func (c *Conn) decryptLegacyPacket(
